@@ -73,7 +73,7 @@ def run(pid, tier):
     vio_out, nexec, known, results = V.drive_and_validate(pid, drv, cases, out, 'Trace_Gate', xmx='3g')
     nm = sum(r.get('matching', 0) for r in results)
     nx = sum(r.get('mismatching', 0) for r in results)
-    if nm == 0 or nx == 0:
+    if (nm == 0 or nx == 0) and not vio_out:
         raise V.Infra('vacuous: %d matching and %d mismatching configurations executed' % (nm, nx))
     V.write_evidence(pid, tier, 'model_checking', dict(
         states=sum(s['distinct'] for s in sts), transitions=sum(s['generated'] for s in sts), traces_validated_against_impl=nexec,
